@@ -34,3 +34,37 @@ package clientset
 //@   requires validClient(rc) && orig != nil
 //@   safety C13
 //@   ensures [C10,C02] err == nil ==> res != nil && res.GetUID() == orig.GetUID() && !ContainsFinalizer(res, name)
+
+//@ func ResourceClient.AtomicStatusUpdate$1() (err)
+//@   requires validClient(*rc) && *orig != nil && *update != nil
+//@   callback update: writes arg 0
+//@   safety C13
+//@   bind call Get: current, getErr
+//@   bind call update: changed
+//@   at Get(ri, ctx, n, opts) [C11,C02]: n == *name && ri == (*rc).ResourceInterface
+//@   at update(o) [C11,C02]: getErr == nil && o == current && current.GetUID() == (*orig).GetUID()
+//@   at UpdateStatus(ri, ctx, o, opts) [C11,C02]: o == current && called(update) && changed && ri == (*rc).ResourceInterface
+//@   at UpdateStatus(ri, ctx, o, opts) [C11]: (*rc).subresourceMap["status"]
+//@   at Update(ri, ctx, o, opts) [C11,C02]: o == current && called(update) && changed && !(*rc).subresourceMap["status"]
+//@   ensures [C11,C02] getErr == nil && old(true) && !called(update) ==> IsNotFound(err) && !called(UpdateStatus) && !called(Update)
+//@   ensures [C11,C01] called(update) && !changed ==> err == nil && *result == current && !called(UpdateStatus) && !called(Update)
+//@   ensures [C11] count(UpdateStatus) + count(Update) <= 1
+//@   ensures [C12] getErr != nil ==> err == getErr
+
+//@ func ResourceClient.AtomicUpdate$1() (err)
+//@   requires validClient(*rc) && *orig != nil && *update != nil
+//@   callback update: writes arg 0
+//@   safety C13
+//@   bind call Get: current, getErr
+//@   bind call update: changed
+//@   at Get(ri, ctx, n, opts) [C02,C10]: n == *name && ri == (*rc).ResourceInterface
+//@   at update(o) [C02,C10]: getErr == nil && o == current && current.GetUID() == (*orig).GetUID()
+//@   at Update(ri, ctx, o, opts) [C02,C10]: o == current && called(update) && changed && ri == (*rc).ResourceInterface
+//@   ensures [C02] getErr == nil && !called(update) ==> IsNotFound(err) && !called(Update)
+//@   ensures [C02,C01] called(update) && !changed ==> err == nil && *result == current && !called(Update)
+//@   ensures [C12] getErr != nil ==> err == getErr
+
+//@ func ResourceClient.AtomicStatusUpdate(rc, orig, update) (result, err)
+//@   requires validClient(rc) && orig != nil && update != nil
+//@   callback update: writes arg 0
+//@   safety C13
